@@ -144,3 +144,52 @@ Proof.
   match goal with |- (if ?m then 0 else 1)%Z + (if ?ok then 0 else 2)%Z = 0%Z -> _ => destruct ok eqn:E; [|destruct m; intros H; lia] end.
   intros _. rewrite andb_true_iff, !orb_true_iff, !Z.eqb_eq in E. exact E.
 Qed.
+
+(** * the system-call monitor accepts the model's own Store *)
+
+(** the observation the harness would record for the LTS's solo Store of a value of [vlen] bytes
+    written in chunks [ws]: create O_CREAT|O_EXCL of a new name in the destination's directory,
+    the writes on that descriptor, fsync, close, rename onto the destination *)
+Definition sev_of_store (ws : list nat) : list sev :=
+  Sev 1 2 (1 + 2 + 8) :: map (fun n => Sev 2 2 (Z.of_nat n)) ws ++ [Sev 3 2 0; Sev 4 2 0; Sev 5 1 0].
+
+Lemma filter_core_writes ws : filter core (map (fun n => Sev 2 2 (Z.of_nat n)) ws) = map (fun n => Sev 2 2 (Z.of_nat n)) ws.
+Proof. induction ws as [|n ws IH]; cbn; [reflexivity | rewrite IH; reflexivity]. Qed.
+Lemma sum_args_writes ws acc tail (Ht : forall e, In e tail -> scode e <> 2%Z) :
+  fold_left (fun a e => if (scode e =? 2)%Z then (a + sarg e)%Z else a) (map (fun n => Sev 2 2 (Z.of_nat n)) ws ++ tail) acc
+  = (acc + Z.of_nat (fold_right Nat.add 0%nat ws))%Z.
+Proof.
+  revert acc. induction ws as [|n ws IH]; intros acc; cbn [map app fold_left fold_right].
+  - rewrite Z.add_0_r. induction tail as [|e tail IHt] in acc, Ht |- *; [reflexivity|]. cbn [fold_left].
+    assert (E : (scode e =? 2)%Z = false) by (apply Z.eqb_neq; apply Ht; left; reflexivity). rewrite E.
+    apply IHt. intros e' He'. apply Ht. right. exact He'.
+  - change (scode (Sev 2 2 (Z.of_nat n)) =? 2)%Z with true. cbn iota. cbn [sarg]. rewrite IH, Nat2Z.inj_add. lia.
+Qed.
+
+(** [spec_ok x (model x) = true] for the Store trace: whatever the value's length and however
+    the writes are split, the model's own Store passes the structural monitor *)
+Theorem store_trace_ok_of_model ws :
+  store_trace_ok (Z.of_nat (fold_right Nat.add 0%nat ws)) (sev_of_store ws) = true.
+Proof.
+  unfold store_trace_ok, sev_of_store. cbn [filter core scode andb Z.leb Z.compare].
+  change (filter core (map (fun n => Sev 2 2 (Z.of_nat n)) ws ++ [Sev 3 2 0; Sev 4 2 0; Sev 5 1 0]))
+    with (filter core (map (fun n => Sev 2 2 (Z.of_nat n)) ws ++ [Sev 3 2 0; Sev 4 2 0; Sev 5 1 0])).
+  rewrite filter_app, filter_core_writes. cbn [filter core scode andb].
+  set (W := map (fun n => Sev 2 2 (Z.of_nat n)) ws).
+  assert (Hw : forall e, In e W -> scode e = 2%Z /\ sclass e = 2%Z).
+  { intros e He. unfold W in He. apply in_map_iff in He. destruct He as (n & <- & _). auto. }
+  repeat (apply andb_true_iff; split); try reflexivity.
+  - apply forallb_forall. intros e He. apply in_app_or in He. destruct He as [He|He].
+    + destruct (Hw e He) as [A B]. rewrite A, B. reflexivity.
+    + cbn in He. destruct He as [<-|[<-|[<-|[]]]]; reflexivity.
+  - unfold sum_args, W. rewrite sum_args_writes; [cbn [Z.add]; apply Z.eqb_refl|].
+    intros e He. cbn in He. destruct He as [<-|[<-|[<-|[]]]]; discriminate.
+  - apply forallb_forall. intros e He. apply in_app_or in He. destruct He as [He|He].
+    + destruct (Hw e He) as [A _]. rewrite A. reflexivity.
+    + cbn in He. destruct He as [<-|[<-|[<-|[]]]]; reflexivity.
+  - rewrite filter_app.
+    assert (E : filter (fun e => negb (scode e =? 2)%Z) W = []).
+    { clear - Hw. induction W as [|e W IH]; [reflexivity|]. cbn [filter].
+      destruct (Hw e (or_introl eq_refl)) as [A _]. rewrite A. cbn. apply IH. intros e' He'. apply Hw. right. exact He'. }
+    rewrite E. reflexivity.
+Qed.
